@@ -189,13 +189,14 @@ theorem pad_interior (ws : List (PadStep α)) (a : NDArr α) (idx : List Nat)
 
 /-- all-zero widths: `pad` returns its argument (before looking at the rule) -/
 theorem pad_zero_is_id (g : GridM α) (a : NDArr α) (widths : List (String × Nat × Nat))
-    (b : KW String) (f : KW α) (h : ∀ w ∈ widths, w.2.1 = 0 ∧ w.2.2 = 0) :
+    (b : KW String) (f : KW α) (h : ∀ w ∈ widths, w.2.1 = 0 ∧ w.2.2 = 0)
+    (hwords : boundaryWordsOk g b = true) :
     padGrid g a widths b f = .ok a := by
   have : widths.all (fun w => w.2.1 == 0 && w.2.2 == 0) = true := by
     rw [List.all_eq_true]
     intro w hw
     simp [h w hw]
-  simp [padGrid, this, pure, Except.pure]
+  simp [padGrid, this, hwords, pure, Except.pure]
 
 /-- non-vacuity: a partial mapping on a two-axis grid resolves Y through the
     `periodic` list and X through the mapping -/
